@@ -67,6 +67,12 @@ type job struct {
 	bk         *backingDesc
 	prog       []Op
 	softNilEnd bool
+	// executions over a moving backing
+	moving bool
+	probe  bool
+	mvSeed int64
+	u      *universe
+	strict bool
 }
 
 func answers(prog []Op, obs []*Obs) []string {
@@ -81,7 +87,7 @@ func answers(prog []Op, obs []*Obs) []string {
 	return out
 }
 
-var sampleQuota = map[string]int{"exhaustive": 2, "random-mem": 2, "real-xmodel": 1, "nilend-probe": 1}
+var sampleQuota = map[string]int{"exhaustive": 2, "random-mem": 2, "real-xmodel": 1, "nilend-probe": 1, "moving-mem": 1}
 
 func main() {
 	r := ev.Start("C10", "exploration",
@@ -90,7 +96,10 @@ func main() {
 			"4 scans; thorough tier: <= 5 ops, plus open-iterator / next-1) x every backing state of the 3 keys (never-written/live/deleted)^3 on an in-memory versioned reader. Part 2: random programs (1-40 ops, 1-3 buckets + $transient) over random "+
 			"in-memory backing states. Part 3: random programs over the REAL xmodel of simnode nodes with committed create/overwrite/delete/re-create transactions (confirmed and pending). "+
 			"Part 4 (probe): nil-upper-bound scans over the real xmodel, pre-execution vs replay. Per real node a few programs are also run as a $verif kernel contract through contract.Manager/PreExec "+
-			"and must agree with the directly driven sandbox. case = (backing state, program); distinct = up to the unique ids written; "+
+			"and must agree with the directly driven sandbox. Part 2b (moving backing): random programs over an in-memory backing to which the harness commits overwrites / deletes / re-creations / creations (new versions) BETWEEN the sandbox calls "+
+			"(Get = current state, iterator = snapshot at Select, as the real xmodel): a key read or written answers from the version first seen (repeatable reads), a key not yet seen from any version current between the first Select covering it and the call, "+
+			"the read set must name the version the answers came from, and the replay over the read set must reproduce everything (including moves of a key ahead of an open iterator and creation of a key the execution looked up and found absent); "+
+			"only phantom moves (creation of an unseen key that a scan of this execution has covered; deletion of an unseen key that an open iterator still holds as live), for which no key/version read set can keep the replay clause, are confined to a counting probe. case = (backing state, program); distinct = up to the unique ids written; "+
 			"non-trivial = the program made at least one observation (Get answer / scan item / scan end) that depended on a preceding write of the execution or on a key present in the backing state")
 	defer sn.CleanupScratch()
 
@@ -110,7 +119,15 @@ func main() {
 			lc := map[string]int{}
 			for gen := range jobs {
 				gen(func(j job) {
-					res := runCase(j.reader, j.bk, j.prog, j.softNilEnd)
+					var res *caseResult
+					if j.moving {
+						res = runMoving(j.mvSeed, j.u, j.bk, j.strict, j.prog, j.probe)
+					} else {
+						res = runCase(j.reader, j.bk, j.prog, j.softNilEnd)
+					}
+					for k, v := range res.extra {
+						lc[k] += v
+					}
 					f := res.f
 					nontrivial := res.observed > 0 && (f.writes+f.dels > 0 || res.fromBk > 0 || res.scanItems > 0)
 					r.Case(hashShape(j.phase+"/"+shapeOf(j.bk.ID, j.prog)), nontrivial)
@@ -133,12 +150,24 @@ func main() {
 							lc["feature."+name]++
 						}
 					}
+					if res.prob != nil && res.taint != "" && !raiseMovingHazards {
+						// probe: the execution contains a move that the unchanged code is known not to handle; counted, not judged
+						lc["moving-probe.tainted-executions-violating."+res.taint+"."+res.prob.Sig]++
+						return
+					}
 					if res.prob != nil {
 						lc["violating-programs"]++
 						lc["violations-by-part."+j.phase+"."+res.prob.Sig]++
-						col.add(&witness{Phase: j.phase, Backing: j.bk.describe(), Program: progLines(j.prog), Answers: answers(j.prog, res.obs),
-							order: j.order, sig: res.prob.Sig, detail: res.prob.Detail})
+						w := &witness{Phase: j.phase, Backing: j.bk.describe(), Program: progLines(j.prog), Answers: answers(j.prog, res.obs),
+							order: j.order, sig: res.prob.Sig, detail: res.prob.Detail}
+						if j.moving {
+							w.Program, w.Answers = res.lines, res.ansLines
+						}
+						col.add(w)
 						return
+					}
+					if j.moving && res.taint != "" {
+						lc["moving-probe.tainted-executions-without-symptom"]++
 					}
 					lc["replays.compared"]++
 					lc["rset.entries"] += res.rsetSize
@@ -151,7 +180,11 @@ func main() {
 					sampleMu.Lock()
 					if sampled[j.phase] < sampleQuota[j.phase] && len(j.bk.M) > 0 && res.observed >= 2 && len(j.prog) >= 3 && len(j.prog) <= 8 && (f.writes+f.dels > 0) && f.scans > 0 {
 						sampled[j.phase]++
-						r.Sample(map[string]interface{}{"phase": j.phase, "backing_state": j.bk.describe(), "program": progLines(j.prog), "sandbox_answers": answers(j.prog, res.obs)})
+						if j.moving {
+							r.Sample(map[string]interface{}{"phase": j.phase, "backing_state": j.bk.describe(), "program": res.lines, "sandbox_answers": res.ansLines})
+						} else {
+							r.Sample(map[string]interface{}{"phase": j.phase, "backing_state": j.bk.describe(), "program": progLines(j.prog), "sandbox_answers": answers(j.prog, res.obs)})
+						}
 					}
 					sampleMu.Unlock()
 				})
@@ -225,6 +258,34 @@ func main() {
 		submitted += hi - lo
 	}
 	fmt.Fprintf(os.Stderr, "c10: random-mem part submitted (%d cases)\n", submitted)
+
+	// ---- part 2b: random programs over a MOVING in-memory backing (the harness commits writes / deletes / re-creations between the calls) ----
+	for _, part := range []struct {
+		phase string
+		n     int
+		probe bool
+		base  int
+	}{{"moving-mem", r.N(40000, 600000), false, 1 << 26}, {"moving-probe", r.N(4000, 40000), true, 1<<26 + 1<<25}} {
+		part := part
+		for lo := 0; lo < part.n; lo += 1000 {
+			lo, hi := lo, lo+1000
+			if hi > part.n {
+				hi = part.n
+			}
+			jobs <- func(emit func(job)) {
+				for i := lo; i < hi; i++ {
+					rg := rand.New(rand.NewSource(mix(r.Seed, part.base+i)))
+					u := genUniverse(rg)
+					d := genMemBacking(rg, u, fmt.Sprintf("%s%d", part.phase, i))
+					strict := rg.Intn(2) == 0
+					prog := stripForMoving(genProgram(rg, u, genOpts{maxOps: 30, nilHi: true}))
+					emit(job{phase: part.phase, order: 150000000 + part.base + i, bk: d, prog: prog, moving: true, probe: part.probe, mvSeed: rg.Int63(), u: u, strict: strict})
+				}
+			}
+			submitted += hi - lo
+		}
+	}
+	fmt.Fprintf(os.Stderr, "c10: moving-backing parts submitted (%d cases)\n", submitted)
 
 	// ---- part 3 + 4: the real xmodel ----
 	nNodes := r.N(6, 24)
@@ -328,6 +389,10 @@ func main() {
 	r.Assume("token side: a static first-fit utxo reader; xmodel.MarshalMessages is trusted to compare the transient outputs of Flush")
 	r.Assume("driving sandbox.NewXModelCache directly observes what a contract observes: cross-checked per node by running programs as a $verif kernel contract through contract.Manager / PreExec (answers, read set, write set must agree)")
 	r.Assume("phantoms (keys absent from a scanned range) are not expected in the read set; the statement's read set is keys Get-ed and keys yielded")
+	r.Assume("moving backing: the state changes only BETWEEN sandbox calls (never inside one); Get reads the current state, a backing iterator is a snapshot of keys and versions taken at Select (leveldb iterator + immutable versions, as xmodel); " +
+		"absence of a key from a scan does not enter the read set (phantoms), so in the judged part an unseen key that a Select of the execution has covered is not made live, and an unseen key that an open iterator still holds as live ahead of its position is not deleted (a scan that shows the absence and a read that shows the key cannot be reconciled by any key/version read set); " +
+		"those two moves are made in the moving-probe part, whose violating executions are counted (moving-probe.tainted-executions-violating.*) and raised only with C10_RAISE_MOVING_HAZARDS=1. Every other move is judged, " +
+		"including a move of a key ahead of an open iterator and the creation of a key the execution has looked up and found absent")
 	for _, fl := range []struct {
 		c string
 		n int64
@@ -338,7 +403,13 @@ func main() {
 		{"feature.transient-write", 500}, {"feature.transient-read", 100}, {"ops.transfer", 500}, {"feature.mid-execution-rwset", 200},
 		{"feature.scan-over-key-deleted-in-this-execution", 1000}, {"feature.scan-over-looked-up-absent-key", 1000},
 		{"feature.scan-over-key-deleted-in-backing-state", 1000}, {"feature.scan-over-key-overwritten-in-this-execution", 1000},
-		{"rset.lookahead-extras", 100}, {"real.nodes", 1}, {"real.keys-deleted", 1}, {"real.keys-live", 1}, {"real.setup.keys-recreated-after-delete", 1}, {"real.setup.keys-overwritten", 1}, {"real.setup.live-keys-deleted", 1}, {"e2e.programs-agreeing-with-contract-path", 100}} {
+		{"rset.lookahead-extras", 100}, {"real.nodes", 1}, {"real.keys-deleted", 1}, {"real.keys-live", 1}, {"real.setup.keys-recreated-after-delete", 1}, {"real.setup.keys-overwritten", 1}, {"real.setup.live-keys-deleted", 1}, {"e2e.programs-agreeing-with-contract-path", 100},
+		{"programs.moving-mem", 10000}, {"programs.moving-probe", 1000}, {"moving.moves", 20000}, {"moving.moves-of-a-key-the-execution-has-seen", 10000}, {"moving.moves-of-a-key-not-yet-seen", 5000},
+		{"moving.moves.overwrite-live-key", 5000}, {"moving.moves.delete-live-key", 5000}, {"moving.moves.re-create-deleted-key", 2000}, {"moving.moves.create-never-written-key", 500},
+		{"moving.select-covers-key-moved-after-it-was-read", 2000}, {"moving.get-answered-from-a-version-the-backing-has-since-replaced", 500},
+		{"moving.scan-item-answered-from-a-version-the-backing-has-since-replaced", 500}, {"moving.rset-entries-at-a-replaced-version", 10000},
+		{"moving.moves.key-ahead-of-open-iterator", 2000}, {"moving.open-iterator-passes-key-moved-since-its-select", 500},
+		{"moving.moves.looked-up-absent-key-becomes-live", 5000}, {"moving.select-covers-looked-up-absent-key-the-backing-has-since-created", 1000}} {
 		r.Floor(fl.c, fl.n)
 	}
 	r.Finish()
